@@ -271,7 +271,8 @@ m("C04", "proof",
   "the limit re-sends exactly one EOF / one Finished / the whole NAK sequence and adds one to the counter; an "
   "expiry at the limit declares the limit fault and re-sends nothing; progress resets; a limit fault during the "
   "cancel exchange abandons (with C14); C04_expiry_count: the fault falls on expiry number limit - c, for a "
-  "fresh procedure the limit-th; a re-received EOF is not progress (C04_dest_eof_again_not_progress). "
+  "fresh procedure the limit-th; a re-received EOF is not progress (C04_dest_eof_again_not_progress); the arrival of the re-requested "
+  "Metadata PDU is progress and issues nothing (C04_metadata_arrival_is_progress, C04_metadata_arrival_issues_nothing). "
   "FOR EVERY CALL SEQUENCE (generated whole-FSM invariants Lemmas/InvSourceBound.lean, InvDestBound.lean): the "
   "sender's EOF retry counter and the receiver's NAK retry counter satisfy counter+1 <= limit, whatever the fault "
   "handlers and whatever arrives in between (C04_source_counter_below_limit_all_histories, "
